@@ -24,6 +24,11 @@ type jsonGhost struct {
 	rawFail    bool
 	tcbInfo    *pcs.TcbInfo         // decoding this (member) document as TcbInfo
 	qeIdentity *pcs.EnclaveIdentity // decoding this (member) document as EnclaveIdentity
+	// members the document does not mention: encoding/json leaves the corresponding
+	// fields of the target as they were (it does not clear its destination)
+	omitsModuleIdentities bool
+	omitsFmspc            bool
+	omitsQeLevels         bool
 }
 
 // encoding/json.Unmarshal is a deterministic function of the document and the
@@ -61,12 +66,23 @@ func m_jsonUnmarshal(data []byte, v any) error {
 		if g.fail || g.tcbInfo == nil {
 			return errParse
 		}
+		keepIds, keepFmspc := t.TdxModuleIdentities, t.Fmspc
 		*t = *g.tcbInfo
+		if g.omitsModuleIdentities {
+			t.TdxModuleIdentities = keepIds
+		}
+		if g.omitsFmspc {
+			t.Fmspc = keepFmspc
+		}
 	case *pcs.EnclaveIdentity:
 		if g.fail || g.qeIdentity == nil {
 			return errParse
 		}
+		keepLevels := t.TcbLevels
 		*t = *g.qeIdentity
+		if g.omitsQeLevels {
+			t.TcbLevels = keepLevels
+		}
 	default:
 		return errParse
 	}
@@ -285,6 +301,11 @@ func hdr(key string, vals ...string) map[string][]string {
 // mkCollateralWorld: k TCB levels, m module identities, qk QE levels, nDist
 // root-CRL distribution points, nRev revoked entries per CRL.
 func mkCollateralWorld(nTrusted, k, m, qk, nDist, nRev int) *collateralWorld {
+	return mkCollateralWorldOpt(nTrusted, k, m, qk, nDist, nRev, false)
+}
+
+// omissions: the signed members may omit some of their members (encoding/json merge semantics)
+func mkCollateralWorldOpt(nTrusted, k, m, qk, nDist, nRev int, omissions bool) *collateralWorld {
 	w := &collateralWorld{pki: mkPKI(nTrusted, nil)}
 	// TCB info
 	tcbChain := mkIssuerChain("tcb")
@@ -294,7 +315,19 @@ func mkCollateralWorld(nTrusted, k, m, qk, nDist, nRev int) *collateralWorld {
 	raw := vp.Bytes("tcb_rawmember", 9)
 	rawID := vp.U64("tcb_rawmember_id")
 	vp.GhostSet(raw, "content-id", rawID)
-	vp.GhostSet(raw, "json", &jsonGhost{tcbInfo: w.signedTcb})
+	tg := &jsonGhost{tcbInfo: w.signedTcb}
+	if omissions {
+		// the signed document may not mention some members at all (their Go value is then the zero value)
+		if vp.Bool("tcb_signed_omits_module_identities") {
+			tg.omitsModuleIdentities = true
+			w.signedTcb.TdxModuleIdentities = nil
+		}
+		if vp.Bool("tcb_signed_omits_fmspc") {
+			tg.omitsFmspc = true
+			w.signedTcb.Fmspc = ""
+		}
+	}
+	vp.GhostSet(raw, "json", tg)
 	body := vp.Bytes("tcb_body_bytes", 10)
 	vp.GhostSet(body, "json", &jsonGhost{tcb: w.bodyTcb, members: map[string]json.RawMessage{"tcbInfo": raw, "signature": []byte{1}}})
 	w.tcbDoc = &doc{chain: tcbChain, rawMember: raw, memberID: rawID, sig: sigBytes,
@@ -307,7 +340,12 @@ func mkCollateralWorld(nTrusted, k, m, qk, nDist, nRev int) *collateralWorld {
 	qraw := vp.Bytes("qe_rawmember", 9)
 	qrawID := vp.U64("qe_rawmember_id")
 	vp.GhostSet(qraw, "content-id", qrawID)
-	vp.GhostSet(qraw, "json", &jsonGhost{qeIdentity: w.signedQe})
+	qg := &jsonGhost{qeIdentity: w.signedQe}
+	if omissions && vp.Bool("qe_signed_omits_levels") {
+		qg.omitsQeLevels = true
+		w.signedQe.TcbLevels = nil
+	}
+	vp.GhostSet(qraw, "json", qg)
 	qbody := vp.Bytes("qe_body_bytes", 10)
 	vp.GhostSet(qbody, "json", &jsonGhost{qe: w.bodyQe, members: map[string]json.RawMessage{"enclaveIdentity": qraw, "signature": []byte{1}}})
 	w.qeDoc = &doc{chain: qeChain, rawMember: qraw, memberID: qrawID, sig: qsigBytes,
